@@ -393,6 +393,49 @@ def run(ctx):
                     inline_age = True
         ctx.check(not bad and len(rows_seen) == 4, "R14.6", "%s|doorkeeper-sketch-reset-table" % f.name,
                   "sketch incremented iff the doorkeeper already had the key; access counter += 1 on every path; counter >= threshold <=> reset (4 rows)", f.where(), "; ".join(sorted(set(bad))[:3]))
+    # ---- R14.9 every position has a counter: positions are `.. % total` (R14.5), a counter position p lives in byte p/2
+    # (R14.1), so each row must hold at least total/2 bytes, `total` being the very value stored as the modulus.  A row sized
+    # from another quantity (or total/4) makes increments index out of bounds on the consumer thread.
+    sk = [n_ for n_, a_ in F.adts.items() if a_["kind"] == "Struct" and any(row in fl["ty"] for fl in a_["variants"][0]["fields"]) and n_ != row]
+    n_size = 0
+    for skn in sk:
+        flds = F.adts[skn]["variants"][0]["fields"]
+        mat_f = [fl["name"] for fl in flds if row in fl["ty"]]
+        mod_f = [fl["name"] for fl in flds if fl["ty"] == "u64"]
+        if len(mat_f) != 1 or len(mod_f) != 1:
+            continue
+        for n_, g in sorted(F.fns.items()):
+            for b in sorted(g.live_blocks()):
+                for i, st in enumerate(g.blocks[b]["stmts"]):
+                    if not (st["k"] == "assign" and st["rv"]["k"] == "agg" and st["rv"].get("adt") == skn):
+                        continue
+                    n_size += 1
+                    e = dict(g.origin_rvalue(st["rv"])[3])
+                    M, T = e.get(mat_f[0]), e.get(mod_f[0])
+                    ok, why = False, "the rows are not built by a local function of the modulus"
+                    if M is not None and T is not None and M[0] == "call" and M[1] in F.fns:
+                        h = F.fns[M[1]]
+                        lens = []
+                        for hh in [h] + F.closures_of(h):
+                            for bb, tt in hh.calls():
+                                if tt["callee"] == "std::vec::from_elem" and len(tt["args"]) >= 2:
+                                    import c09
+                                    lens.append(c09.resolve_env(F, hh, hh.op_origin(tt["args"][1])))
+                        from core import subst_params
+                        T0 = canon(T)
+                        accepted = [canon(("binop", "Div", T, ("const", 2, "u64"))), canon(("binop", "Shr", T, ("const", 1, "u64"))), T0]
+                        got = []
+                        for L_ in lens:
+                            x = L_
+                            while isinstance(x, tuple) and x and x[0] == "cast":
+                                x = x[1]
+                            x = canon(uncast_all(subst_params(x, list(M[2]))))
+                            got.append(x)
+                        ok = bool(got) and all(x in [canon(uncast_all(a_)) for a_ in accepted] for x in got)
+                        why = "row length(s) %s vs modulus %s" % ([fmt(x)[:60] for x in got], fmt(T0)[:60])
+                    ctx.check(ok, "R14.9", "%s|rows-hold-total-over-two-bytes" % n_,
+                              "each row is allocated with (at least) total/2 bytes, `total` being the value stored as the position modulus", g.where(b, i), why)
+    ctx.floor("R14.9", "sketch constructions", n_size, 1)
     # ---- R14.8 the first-access filter itself: set on first sight, never forgets on its own --------------------------------
     # (R14.6 says *when* the doorkeeper is asked and cleared; this says what the doorkeeper's own operations do, on every
     # path with its helpers inlined: a key not yet in the filter is set exactly once and reported as added; a key already
@@ -498,6 +541,14 @@ def fold_consts(e):
     if e[0] == "binop" and e[1] == "Mul" and ("const", 0) in (e[2], e[3]):
         return ("const", 0)
     return canon(e)
+
+
+def uncast_all(e):
+    if not isinstance(e, tuple) or not e:
+        return e
+    if e[0] == "cast":
+        return uncast_all(e[1])
+    return tuple(uncast_all(x) if isinstance(x, tuple) else x for x in e)
 
 
 def canon(e):
